@@ -18,7 +18,7 @@ open Finset Polynomial
 theorem sum_mul_count_eq_sum (q : List ℕ) (P : ℕ) (h : ∀ v ∈ q, v ≤ P) : ∑ v ∈ range (P+1), v * q.count v = q.sum := by
   have h1 := Finset.sum_multiset_count (q : Multiset ℕ)
   simp only [Multiset.sum_coe, Multiset.coe_count, smul_eq_mul] at h1
-  rw [h1]
+  rw [h1, sum_congr rfl (fun v _ => Nat.mul_comm v (q.count v))]
   symm
   apply Finset.sum_subset
   · intro v hv
@@ -27,8 +27,6 @@ theorem sum_mul_count_eq_sum (q : List ℕ) (P : ℕ) (h : ∀ v ∈ q, v ≤ P)
   · intro v _ hv
     rw [Multiset.mem_toFinset, Multiset.mem_coe] at hv
     rw [List.count_eq_zero_of_not_mem hv, zero_mul]
-  · intro v _
-    ring
 
 /-! ### the partitions with a given total inside all partitions -/
 
@@ -57,7 +55,7 @@ theorem bern_genpoly (P : ℕ) (y : ℚ) :
   ring
 
 theorem coeff_genpoly (N i : ℕ) (y : ℚ) : ((C y * X + C (1 - y)) ^ N : ℚ[X]).coeff i = bern N i y := by
-  rw [← bern_genpoly, finset_sum_coeff]
+  rw [← bern_genpoly, finsetSum_coeff]
   simp only [coeff_C_mul_X_pow]
   rw [Finset.sum_ite_eq (range (N+1)) i (fun v => bern N v y)]
   split_ifs with h
@@ -83,7 +81,7 @@ theorem conv_binom (m P i : ℕ) (y : ℚ) :
     ring
   rw [sum_congr rfl hterm] at core
   have hc := congrArg (fun p : ℚ[X] => p.coeff i) core
-  simp only [finset_sum_coeff, coeff_C_mul_X_pow, coeff_genpoly] at hc
+  simp only [finsetSum_coeff, coeff_C_mul_X_pow, coeff_genpoly] at hc
   rw [sumL_part_eq, ← hc, Finset.sum_filter]
   refine sum_congr rfl fun q _ => ?_
   by_cases h : q.sum = i
@@ -159,8 +157,10 @@ theorem betaBinomConv_sub_bern (m P i : ℕ) (y c : ℚ) (hy0 : 0 ≤ y) (hy1 : 
     (fun v hv => by
       refine (betaBinom_sub_bern P v hv y c hy0 hy1 hc).trans ?_
       have h2 : (P.choose v : ℚ) ≤ (2 : ℚ) ^ P := by exact_mod_cast Nat.choose_le_two_pow P v
-      rw [mul_div_assoc, mul_div_assoc]
-      exact mul_le_mul_of_nonneg_right h2 (by positivity))
+      have hpos : 0 ≤ (P : ℚ) * P / c := by positivity
+      calc (P.choose v : ℚ) * ((P : ℚ) * P) / c = (P.choose v : ℚ) * ((P : ℚ) * P / c) := by ring
+        _ ≤ (2 : ℚ) ^ P * ((P : ℚ) * P / c) := mul_le_mul_of_nonneg_right h2 hpos
+        _ = (2 : ℚ) ^ P * ((P : ℚ) * P) / c := by ring)
   refine h.trans (le_of_eq ?_)
   unfold inbLimitConst
   ring
